@@ -16,6 +16,9 @@ VERIF = os.path.dirname(os.path.dirname(os.path.abspath(__file__)))
 REPO = os.environ.get("ERGO_REPO", "/repo")
 GOSMT = os.path.join(VERIF, "bin", "gosmt")
 PKGDIR = os.path.join(REPO, "internal", "ergo")
+# A tree other than /repo (a scratch copy holding a seeded change) never overwrites the registered
+# evidence or the out/<id> directories of the real checks.
+ALT = os.path.realpath(REPO) != "/repo"
 
 
 # primary solver: z3 5.1.0 (z3-new) - on the file-model queries it is ~30x faster than 4.8.12;
@@ -204,7 +207,7 @@ def check_property(prop, tier, units, level_text, assumptions, extra=None, post=
     ensure_engine()
     seed = int(os.environ.get("VERIF_SEED", "0") or 0)
     timeout_ms = 60000 if tier == "quick" else 600000
-    outdir = os.path.join(VERIF, "out", prop)
+    outdir = os.path.join(VERIF, "out", ("alt-" if ALT else "") + prop)
     shutil.rmtree(outdir, ignore_errors=True)
     os.makedirs(outdir, exist_ok=True)
     ncpu = os.cpu_count() or 8
@@ -343,8 +346,9 @@ def check_property(prop, tier, units, level_text, assumptions, extra=None, post=
     }
     if extra:
         ev["coverage"].update(extra)
-    os.makedirs(os.path.join(VERIF, "evidence"), exist_ok=True)
-    json.dump(ev, open(os.path.join(VERIF, "evidence", prop + ".json"), "w"), indent=1)
+    evdir = os.path.join(VERIF, "out", "alt-evidence") if ALT else os.path.join(VERIF, "evidence")
+    os.makedirs(evdir, exist_ok=True)
+    json.dump(ev, open(os.path.join(evdir, prop + ".json"), "w"), indent=1)
     print("%s %s: obligations=%d discharged=%d known=%d violations=%d inconclusive=%d queries=%d solver=%.1fs wall=%.1fs" % (
         prop, tier, n_obl, n_dis, len(known_hits), len(violations), len(inconclusive), n_queries, solver_time, time.time() - t0))
     if violations:
